@@ -205,7 +205,7 @@ Print Assumptions C19_focus_size.
    (distinct typed occurrences of the definition) + 2 parameters. *)
 Theorem C19_fun2core_free_vars : forall codata cur t cont st s st',
   wc codata cur false t cont st = Fun2Core.Ok (s, st') -> cont_cns cont ->
-  forall b, In b (tfv_stmt s []) -> In b (tocc t) \/ In b (tfv_term cont []).
+  forall b, In b (Fun2Core.tfv_stmt s []) -> In b (tocc t) \/ In b (Fun2Core.tfv_term cont []).
 Proof. exact occ_wc. Qed.
 Print Assumptions C19_fun2core_free_vars.
 
